@@ -20,6 +20,10 @@ OPS = [
     (r"vec_deque::VecDeque::<T, A>::pop_back$", "deq", "back"),
     (r"vec_deque::VecDeque::<T, A>::pop_front$", "deq", "front"),
     (r"vec_deque::VecDeque::<T, A>::drain$", "deq", "front"),
+    (r"linked_list::LinkedList::<T, A>::push_back$", "enq", "back"),
+    (r"linked_list::LinkedList::<T, A>::push_front$", "enq", "front"),
+    (r"linked_list::LinkedList::<T, A>::pop_back$", "deq", "back"),
+    (r"linked_list::LinkedList::<T, A>::pop_front$", "deq", "front"),
     (r"IntoIterator>?::into_iter$", "deq", "front"),
     (r"core::mem::take$", "deq", "front"),
 ]
